@@ -65,7 +65,14 @@ impl<'a> Cigar<'a> {
             if src.is_empty() {
                 None
             } else {
-                Some(parse_op(&mut src))
+                let result = parse_op(&mut src);
+
+                // An op that fails to parse may not advance the source: end the iteration.
+                if result.is_err() {
+                    src = &[];
+                }
+
+                Some(result)
             }
         })
     }
